@@ -38,7 +38,9 @@ TheCtx == Obj(<<v_, w_, l_, n_>>, <<IntV(1), S(a_), Arr(<<IntV(1), IntV(2)>>), O
 \* member names that begin with a word the lexer knows and go on (nilx, inx, orx, notx, truex): names, not keywords
 nilx_ == <<110, 105, 108, 120>>  inx_ == <<105, 110, 120>>  orx_ == <<111, 114, 120>>  notx_ == <<110, 111, 116, 120>>  truex_ == <<116, 114, 117, 101, 120>>
 ux_ == <<95, 120>>      \* "_x": a name that begins with the filter-context spelling
-KwDoc == Obj(<<nilx_, inx_, notx_, a_, ux_>>, <<IntV(1), Obj(<<orx_, truex_>>, <<IntV(2), IntV(0)>>), IntV(3), IntV(4), IntV(5)>>)
+\* (true and false among its members, so that the capitalised literals can be told apart; kept out of the candidates of the
+\*  membership universes, whose equality the statement leaves open)
+KwDoc == Obj(<<nilx_, inx_, notx_, a_, ux_, <<116>>, <<102>>>>, <<IntV(1), Obj(<<orx_, truex_>>, <<IntV(2), IntV(0)>>), IntV(3), IntV(4), IntV(5), Bool(TRUE), Bool(FALSE)>>)
 DocSeq == <<MainDoc, ArrDoc, IntV(7), Obj(<<a_>>, <<IntV(1)>>), KwDoc>>
 
 ReAB == Cat(Chr(97), Chr(98))
@@ -51,7 +53,8 @@ QuerySet ==
            Q("$", <<Child(SName(o_)), Seg(FALSE, <<SName(e1_), SName(e3_)>>), Child(SName(s_))>>),
            Q("$", <<Child(SName(nilx_))>>), Q("$", <<Seg(FALSE, <<SName(nilx_), SName(notx_)>>)>>), Q("$", <<Child(SName(inx_)), Child(SName(orx_))>>),
            Q("$", <<Descend(SName(truex_))>>), Q("$", <<Child(SFilter(ETest(QAt(<<Child(SName(orx_))>>))))>>),
-           Q("$", <<Child(SName(ux_))>>) }
+           Q("$", <<Child(SName(ux_))>>),
+           F(ECmp("==", Self, OLit(Bool(TRUE)))), F(ECmp("!=", Self, OLit(Bool(FALSE)))), F(ECmp("==", OLit(Bool(FALSE)), Self)) }
          \cup {FC(e) : e \in { EAnd(ETest(QAt(<<Child(SName(a_))>>)), ETest(QAt(<<Child(SName(b_))>>))),
                                EOr(ETest(QAt(<<Child(SName(s_))>>)), ECmp("==", At1(a_), OLit(IntV(2)))),
                                ENot(ETest(QAt(<<Child(SName(a_))>>))),
